@@ -539,8 +539,8 @@ func runProbeGrid(c fw.Case) fw.Result {
 func init() {
 	fw.Register(&fw.Property{
 		ID: "C10", Level: "exploration",
-		Rule:        "http probes against a harness endpoint that serves the k-th probe of a process with a scripted outcome and records it before answering (logical outcome sequence, real 1 s period): outcome sequences of length 2-10 over {ok, fail}, failure_threshold 1-3, restart policies {unset,no,always,on_failure}, readiness on a long-running process (optionally with a process_healthy dependent) and liveness on a daemon; oracle: Ready/Not Ready only after a matching served outcome, stop exactly at the threshold-th consecutive failure, relaunch iff the policy says so, readiness forgotten at Restarting/Terminating, daemon treated as exited; plus the complete parameter grid {-5,0,1,3}^5 x 8 port strings through ValidateAndSetDefaults (legality, idempotence) and the loader; distinct = outcome sequence x threshold x policy",
-		Assumptions: []string{"success_threshold is documented as not implemented and not judged", "exec probes are not exercised here"},
+		Rule:        "http probes against a harness endpoint that serves the k-th probe of a process with a scripted outcome and records it before answering (logical outcome sequence, real 1 s period): outcome sequences of length 2-10 over {ok, fail}, failure_threshold 1-3, restart policies {unset,no,always,on_failure}, readiness on a long-running process (optionally with a process_healthy dependent) and liveness on a daemon; oracle: Ready/Not Ready only after a matching served outcome, stop exactly at the threshold-th consecutive failure, relaunch iff the policy says so, readiness forgotten at Restarting/Terminating, daemon treated as exited; plus exec probes (success, exit code, hang past the timeout, killed, not runnable), a probe still in flight at a stop, daemons with a slow launcher, restart storms (threshold 1, ~1 ms back-off), and the complete parameter grid {-5,0,1,3}^5 x 8 port strings (+ num_port values) through ValidateAndSetDefaults (legality, idempotence) and the loader; distinct = outcome sequence x threshold x policy",
+		Assumptions: []string{"success_threshold is documented as not implemented and not judged", "exec-probe and slow-probe cases wait for the event itself (stop signal / Ready report) under a 10-12 s watchdog"},
 		Gen: func(seed int64, tier string) []fw.Case {
 			var cs []fw.Case
 			cs = append(cs, fw.MkCase("C10", "parameter-grid", 0, nil))
